@@ -28,7 +28,11 @@ RULE = ('test recording = n x c matrix with entry (r, j) = r*c + j in the sample
         'every spelling of the keyword (instance, \'<i2\', \'int16\', np.int16), through get_ephys_reader and through FlatEphysReader '
         'directly, layout / item / selector / offset in rotation, also in the sampled configurations and the random stream; reader attributes '
         'with the last file exactly 1, 2, 3 chunks of round(600 s * rate) samples long and one sample more / less (rates 0.01 / 0.005 / '
-        '0.02 Hz) after 0-2 other files, on flat / array / .npy. Non-trivial = the recording has >= 2 parts or a column selector is present; '
+        '0.02 Hz) after 0-2 other files, on flat / array / .npy. Stage 6 (environment and storage form, in rotation over every generated read / '
+        'attribute case): file paths given relative to the working directory (1 in 4) and as str (1 in 5); the process changes its working '
+        'directory between the construction of the reader and the reads (into a directory holding files of the same names and sizes with other '
+        'values, or an empty one), with and without a read of the first file before the move, with relative and with absolute paths; .npy files '
+        'and in-memory arrays in Fortran order, in-memory non-contiguous views, .npy header formats 1.0 / 2.0 / 3.0. Non-trivial = the recording has >= 2 parts or a column selector is present; '
         'distinct = distinct abstract input + configuration.')
 EXHAUSTIVE = {'quick': True, 'thorough': True}
 CLAUSES = {
